@@ -12,14 +12,18 @@ A conversion of a user function is, as far as names are concerned, a sequence of
     site — the names READ in that scope and its parents.  Whatever the scope, its parent chain ends at the
     function's body scope, so every request reserves at least `f.read` (hypothesis `ConvOf`; tied to the code by the
     harness: recorded reserved sets ⊇ the body scope's reads, and by the translator: `sites_reserve_referenced`).
-  * besides, the templates use identifiers WITHOUT asking the namer (`Gen.Naming.templateFixedNames`: `ag__`,
-    `vars_`, `block_vars`) and the inner factory takes `Gen.Naming.extraLocals` (`ag__`) as parameters.
+  * besides, generated code contains identifiers that NO namer request produced.  `Gen.Naming.introSites` lists every site
+    (template text, parsed literal, direct `ast.Name(...)`) that puts an identifier into generated code and how it got its
+    name; the literally written ones are `hardCodedSpec` below: `ag__` (operator module, parameter of the inner factory, read
+    everywhere), `vars_` / `block_vars` (parameter of the generated state setter), `tuple` / `dict` (BUILTINS that call_trees.py
+    references by bare name at `f(*a)` / `f(k=v)` call sites).  Each has its own clash condition (`hardClash`).
 
 `UserFn` is what the harness computes from the program text (its own scope analysis, cross-checked against the
 real activity analysis) and sends to the driver; the class predicates below are evaluated by the driver.
 -/
 import MaltModel.Rt.Naming
 import MaltModel.Generated.Naming
+import MaltModel.Generated.Pipeline
 
 namespace Malt.NamingConv
 open Malt.Naming
@@ -37,9 +41,53 @@ structure UserFn where
   free : List String          -- names read in the function text and resolved OUTSIDE it (not bound at the function's own
                               -- level): globals, builtins, closure variables
   ns : List String            -- keys of the namespace (globals + closure) at conversion time
+  blockVarRoots : List String := []   -- root names of the block variables (`symbol_names`) of the lowered if/while/for statements
+  starCalls : Bool := false   -- the function text contains a call with a `*args` argument (lowered through `tuple(...)`)
+  kwCalls : Bool := false     -- the function text contains a call with keyword / `**kw` arguments (lowered through `dict(...)`)
   deriving Repr, Inhabited
 
 def UserFn.userNames (f : UserFn) : List String := f.bound ++ f.read ++ f.ns
+
+/-- `x` occurs as an identifier in the function's text. -/
+def UserFn.mentions (f : UserFn) (x : String) : Bool := f.bound.contains x || f.read.contains x || f.readLocal.contains x
+
+/-! ### Identifiers generated code uses WITHOUT asking the namer -/
+
+inductive HardKind where
+  | operatorModule      -- `ag__`: read by every generated call; bound as parameter of the inner factory around the function
+  | setterParam         -- `vars_`: parameter of `def set_state(vars_): nonlocal <block vars>; <block vars>, = vars_`
+  | inertParam          -- `block_vars`: parameter of `def set_state(block_vars): pass` (no user name inside)
+  | builtinAtStarCall   -- `tuple`: `f(a, *r)` becomes `converted_call(f, (a,) + tuple(r), ...)`
+  | builtinAtKwCall     -- `dict`: `f(k=v)` becomes `converted_call(f, (), dict(k=v), ...)`
+  deriving DecidableEq, Repr
+
+/-- The hand-classified hard-coded identifiers.  `hard_coded_sites_classified` (Props/C11) shows that every site of
+`Gen.Naming.introSites` whose name is written literally in the source is one of these: a new hard-coded name in the
+converters breaks that theorem until it is classified here. -/
+def hardCodedSpec : List (String × HardKind) :=
+  [("ag__", .operatorModule), ("vars_", .setterParam), ("block_vars", .inertParam),
+   ("tuple", .builtinAtStarCall), ("dict", .builtinAtKwCall)]
+
+def hardCodedNames : List String := hardCodedSpec.map (·.1)
+
+/-- The clash condition of a hard-coded identifier, per kind:
+* `ag__`: the user's function mentions it at all (binding it shadows the operator module for the generated calls in that
+  scope; reading it as a global finds the factory parameter instead);
+* `vars_`: it is (the root of) a block variable of some lowered statement — then the setter is
+  `def set_state(vars_): nonlocal vars_` (SyntaxError) or assigns through the shadowed parameter;
+* `block_vars`: never;
+* `tuple` / `dict`: the function has a `*`-call / keyword call and binds the name somewhere, or the namespace does. -/
+def hardClashKind (f : UserFn) (x : String) : HardKind → Bool
+  | .operatorModule => f.mentions x
+  | .setterParam => f.blockVarRoots.contains x
+  | .inertParam => false
+  | .builtinAtStarCall => f.starCalls && (f.bound.contains x || f.ns.contains x)
+  | .builtinAtKwCall => f.kwCalls && (f.bound.contains x || f.ns.contains x)
+
+def hardClash (f : UserFn) (x : String) : Bool :=
+  match hardCodedSpec.lookup x with
+  | some k => hardClashKind f x k
+  | none => false
 
 inductive Level where
   | transpiler | converter
@@ -96,14 +144,14 @@ transpiler-level requests reserve nothing. -/
 def FreeNamesResolved (f : UserFn) : Prop :=
   ∀ x ∈ f.free, x ∈ f.ns ∨ ∀ r ∈ transpilerRootsOf f.name, isVariant r x = false
 
-/-- The user does not use an identifier that templates / the factory hard-code (`ag__`, `vars_`, `block_vars`). -/
+/-- No hard-coded identifier clashes (each in its own sense, `hardClash`). -/
 def FixedNamesUnused (f : UserFn) : Prop :=
-  ∀ x ∈ Gen.Naming.templateFixedNames ++ Gen.Naming.extraLocals, x ∉ f.userNames
+  ∀ x ∈ hardCodedNames, hardClash f x = false
 
 /-- No transpiler root of this function collapses onto a hard-coded identifier.  FALSE for a function called
 `_<digits>`: `'ag__' + '_5'` splits into root `ag__` and counter 5, and `ag__` itself is handed out. -/
 def FixedNamesNotVariants (f : UserFn) : Prop :=
-  ∀ r ∈ transpilerRootsOf f.name, ∀ x ∈ Gen.Naming.templateFixedNames ++ Gen.Naming.extraLocals, isVariant r x = false
+  ∀ r ∈ transpilerRootsOf f.name, ∀ x ∈ hardCodedNames, isVariant r x = false
 
 instance (f : UserFn) : Decidable (FixedNamesNotVariants f) := by unfold FixedNamesNotVariants; exact inferInstance
 instance (f : UserFn) : Decidable (BoundNamesReserved f) := by unfold BoundNamesReserved; exact inferInstance
@@ -129,13 +177,135 @@ def clsNestedBound (f : UserFn) (roots : List String) (x : String) : Bool :=
 def clsLateFree (f : UserFn) (x : String) : Bool :=
   f.free.contains x && !f.ns.contains x && (transpilerRootsOf f.name).any (fun r => isVariant r x)
 
-/-- class `user_name_equals_hard_coded_template_identifier`. -/
+def isBuiltinKind : HardKind → Bool
+  | .builtinAtStarCall | .builtinAtKwCall => true
+  | _ => false
+
+/-- class `user_name_equals_hard_coded_template_identifier` (`ag__`, `vars_`). -/
 def clsFixed (f : UserFn) (x : String) : Bool :=
-  (Gen.Naming.templateFixedNames ++ Gen.Naming.extraLocals).contains x && f.userNames.contains x
+  match hardCodedSpec.lookup x with
+  | some k => !isBuiltinKind k && hardClashKind f x k
+  | none => false
+
+/-- class `user_binding_shadows_builtin_referenced_by_generated_code` (`tuple`, `dict`). -/
+def clsBuiltinShadow (f : UserFn) (x : String) : Bool :=
+  match hardCodedSpec.lookup x with
+  | some k => isBuiltinKind k && hardClashKind f x k
+  | none => false
 
 /-- class `transformed_function_name_collapses_to_hard_coded_identifier` (`x` = the hard-coded identifier). -/
 def clsCollapse (f : UserFn) (x : String) : Bool :=
-  (Gen.Naming.templateFixedNames ++ Gen.Naming.extraLocals).contains x &&
-  (transpilerRootsOf f.name).any (fun r => isVariant r x)
+  hardCodedNames.contains x && (transpilerRootsOf f.name).any (fun r => isVariant r x)
+
+/-! ### Sites whose name is neither a namer result nor written literally -/
+
+inductive OtherSrc where
+  | userTarget      -- an AST node of the user's program in target position: keeps the user's own names
+  | userNames       -- names of the user's variables taken from the scope analysis (nonlocal/global lists, state tuples, undefined-assigns)
+  | namerThrough    -- a namer result reaching the site through a data structure the translator does not follow
+  | config          -- supplied by the transpiler's caller: closure variables of the user's function, factory parameters
+                    -- (`get_extra_locals` keys = `Gen.Naming.extraLocals`, classified hard-coded), future imports
+  | optionsLiteral  -- `True` / `False` / `ag__.Feature.X` text of `ConversionOptions.to_ast`
+  | operatorName    -- `ag__.and_`-style dotted operator names from a module-level table
+  | passThrough     -- templates.py builds the node from the replacement it was handed
+  | notInPipeline   -- anf.py / transformer.Base.create_assignment: not used by `PyToPy.transform_ast`
+  deriving DecidableEq, Repr
+
+/-- Hand classification of every `other` / `passedIn` site of `Gen.Naming.introSites` (key: file, function, placeholder).
+`other_sites_classified` (Props/C11) fails to compile when the source gains a site that is not listed here — e.g. a
+binder whose name is computed (`'retval_' + suffix`) instead of requested from the namer. -/
+def otherSpec : List ((String × String × String) × OtherSrc) := [
+  (("converters/break_statements.py", "BreakTransformer.visit_For", "target"), .userTarget),
+  (("converters/control_flow.py", "ControlFlowTransformer._create_nonlocal_declarations", "<ast.Global>"), .userNames),
+  (("converters/control_flow.py", "ControlFlowTransformer._create_nonlocal_declarations", "<ast.Nonlocal>"), .userNames),
+  (("converters/control_flow.py", "ControlFlowTransformer._create_state_functions", "state_vars"), .userNames),
+  (("converters/control_flow.py", "ControlFlowTransformer._create_undefined_assigns", "var"), .userNames),
+  (("converters/control_flow.py", "ControlFlowTransformer.visit_For", "iterates"), .userTarget),
+  (("converters/lists.py", "ListTransformer._generate_pop_operation", "pop_var_name"), .namerThrough),
+  (("converters/lists.py", "ListTransformer._generate_pop_operation", "target"), .userTarget),
+  (("converters/lists.py", "ListTransformer._replace_append_call", "target"), .userTarget),
+  (("converters/logical_expressions.py", "LogicalExpressionTransformer._as_binary_function", "<parsed>"), .operatorName),
+  (("converters/logical_expressions.py", "LogicalExpressionTransformer._as_unary_function", "<parsed>"), .operatorName),
+  (("converters/slices.py", "SliceTransformer._process_single_assignment", "target"), .userTarget),
+  (("converters/slices.py", "SliceTransformer._process_single_update", "<template>"), .userTarget),
+  (("converters/variables.py", "VariableAccessTransformer.visit_AugAssign", "var_"), .userTarget),
+  (("converters/variables.py", "VariableAccessTransformer.visit_Delete", "var_"), .userTarget),
+  (("pyct/transpiler.py", "PyToPy.transform_function", "<ast.Name>"), .namerThrough),
+  (("pyct/transpiler.py", "_wrap_into_factory", "<ast.alias>"), .config),
+  (("pyct/transpiler.py", "_wrap_into_factory", "<ast.arg>"), .config),
+  (("pyct/transpiler.py", "_wrap_into_factory", "factory_args"), .config),
+  (("pyct/transpiler.py", "_wrap_into_factory", "var_name"), .config),
+  (("pyct/templates.py", "ReplaceTransformer.visit_arg", "<ast.arg>"), .passThrough),
+  (("pyct/templates.py", "_convert_to_ast", "<ast.Name>"), .passThrough),
+  (("core/converter.py", "ConversionOptions.to_ast", "<parsed>"), .optionsLiteral),
+  (("core/converter.py", "ConversionOptions.to_ast.list_of_features", "<parsed>"), .optionsLiteral),
+  (("pyct/common_transformers/anf.py", "AnfTransformer._do_transform_node", "temp_name"), .notInPipeline),
+  (("pyct/transformer.py", "Base.create_assignment", "target"), .notInPipeline)]
+
+/-! ### A whole conversion, pass by pass (pipeline order of `Gen.Pipeline.steps`) -/
+
+/-- The namer requests of one conversion, as issued: `transform_function` asks for the transformed name, then every
+converter step of `PyToPy.transform_ast` that ran issues its requests, then `_PythonFnFactory.create` asks for the two
+factory names. -/
+structure Conversion where
+  pre : List Call
+  passes : List (String × List Call)
+  post : List Call
+  deriving Repr, Inhabited
+
+def Conversion.reqs (c : Conversion) : List Req :=
+  c.pre.map (⟨.transpiler, ·⟩) ++ (c.passes.flatMap (fun p => p.2.map (⟨.converter, ·⟩))) ++ c.post.map (⟨.transpiler, ·⟩)
+
+/-- Literal roots the converter module behind a pipeline step asks for (from the site table). -/
+def rootsOfStep (step : String) : List String :=
+  (Gen.Naming.converterSites.filter (fun s => s.file == step ++ ".py" && s.rootKind != .dynamic)).map (·.root)
+
+/-- The per-pass structure the end-to-end theorem assumes: the steps are a subsequence of the pipeline (each at most once,
+in order), every request of a step asks for a literal root of THAT step's call sites and reserves the body reads, and the
+transpiler's requests ask for its roots. -/
+def wellFormed (f : UserFn) (c : Conversion) : Bool :=
+  (c.passes.map (·.1)).isSublist (Gen.Pipeline.steps.map (·.1)) &&
+  c.passes.all (fun p => p.2.all (fun call =>
+    (rootsOfStep p.1).contains call.root && f.read.all (fun x => call.reserved.contains x))) &&
+  (c.pre ++ c.post).all (fun call => (transpilerRootsOf f.name).contains call.root)
+
+/-- Run the passes in order, threading the namer: per step, the names it was given. -/
+def runPipeline (nm : Namer) : List (String × List Call) → List (String × List String) × Namer
+  | [] => ([], nm)
+  | (step, calls) :: ps =>
+    let (xs, nm') := runCalls nm calls
+    let (rest, nm'') := runPipeline nm' ps
+    ((step, xs) :: rest, nm'')
+
+/-- Every name the conversion puts into generated code: namer results in request order, then the hard-coded identifiers. -/
+def allIntroduced (f : UserFn) (c : Conversion) : List String :=
+  (produced f c.reqs).map (·.1) ++ hardCodedNames
+
+/-- No name is in any clash class (the negation of every finding class, for every name). -/
+def NoClashClass (f : UserFn) : Prop :=
+  ∀ x, clsBoundOnly f Gen.Naming.converterRoots x = false ∧ clsNestedBound f Gen.Naming.converterRoots x = false ∧
+       clsLateFree f x = false ∧ clsFixed f x = false ∧ clsBuiltinShadow f x = false ∧ clsCollapse f x = false
+
+/-- Decidable form: only names of `f.bound ++ f.free ++ hardCodedNames` can be in a class. -/
+def noClashClass (f : UserFn) : Bool :=
+  (f.bound ++ f.free ++ hardCodedNames).all fun x =>
+    !clsBoundOnly f Gen.Naming.converterRoots x && !clsNestedBound f Gen.Naming.converterRoots x &&
+    !clsLateFree f x && !clsFixed f x && !clsBuiltinShadow f x && !clsCollapse f x
+
+/-! ### Why a conversion is outside the hypotheses of `C11_disjoint_partial` (driver op `c11.why`) -/
+
+def whyOutside (f : UserFn) (reqs : List Req) : List (String × String) :=
+  ((f.bound.filter (clsBoundOnly f Gen.Naming.converterRoots)).map (("bound_only_name_is_root_variant", ·))) ++
+  ((f.bound.filter (clsNestedBound f Gen.Naming.converterRoots)).map (("nested_scope_bound_name_is_root_variant", ·))) ++
+  ((f.free.filter (clsLateFree f)).map (("free_name_outside_namespace_is_transpiler_variant", ·))) ++
+  ((hardCodedNames.filter (clsFixed f)).map (("hard_coded_identifier_clash", ·))) ++
+  ((hardCodedNames.filter (clsBuiltinShadow f)).map (("builtin_referenced_by_generated_code_shadowed", ·))) ++
+  ((hardCodedNames.filter (clsCollapse f)).map (("transformed_name_collapses_to_hard_coded", ·))) ++
+  ((reqs.filter (fun r => r.level == .converter && !Gen.Naming.converterRoots.contains r.call.root)).map
+      (fun r => ("converter_root_not_literal", r.call.root))) ++
+  ((reqs.filter (fun r => r.level == .converter && !f.read.all (fun x => r.call.reserved.contains x))).map
+      (fun r => ("request_does_not_reserve_body_reads", r.call.root))) ++
+  ((reqs.filter (fun r => r.level == .transpiler && !(transpilerRootsOf f.name).contains r.call.root)).map
+      (fun r => ("transpiler_root_unknown", r.call.root)))
 
 end Malt.NamingConv
